@@ -62,7 +62,7 @@ func (c *Ctx) c10Jitter() {
 		var J *pw.Val
 		var rands []*pw.Event
 		for _, ev := range p.Events {
-			if ev.Kind == pw.EvFieldRead && ev.Field != nil && ev.Field.Name() == "ExpirationJitter" {
+			if ev.Kind == pw.EvFieldRead && ev.Field != nil && fname(ev.Field) == "ExpirationJitter" {
 				J = ev.Value
 			}
 			if ev.Kind == pw.EvCall && ev.Role == "Std:rand.Float64" {
@@ -155,7 +155,7 @@ func (c *Ctx) ctorDefaults(rule, name, instField string, want map[string]*big.Ra
 			var orig *pw.Val
 			var write *pw.Event
 			for _, ev := range p.Events {
-				if ev.Field == nil || ev.Field.Name() != field {
+				if ev.Field == nil || fname(ev.Field) != field {
 					continue
 				}
 				// only the local config copy (parameter), not the stored Config
@@ -222,17 +222,17 @@ func (c *Ctx) storedAfterDefaults(rule, ctor, instField string, fields []string)
 		var src *pw.Val
 		for _, ev := range p.Events {
 			switch {
-			case src == nil && ev.Kind == pw.EvFieldWrite && ev.Field != nil && ev.Field.Name() == instField && ev.Value != nil:
+			case src == nil && ev.Kind == pw.EvFieldWrite && ev.Field != nil && fname(ev.Field) == instField && ev.Value != nil:
 				src = ev.Value
 				nCopy++
 			case src == nil && ev.Kind == pw.EvStructCopy && ev.Note == "literal:"+instField:
 				src = ev.Recv
 				nCopy++
-			case src != nil && ev.Kind == pw.EvFieldWrite && ev.Field != nil && isField[ev.Field.Name()] && ev.Recv == src:
-				if !reported[ev.Field.Name()] {
-					reported[ev.Field.Name()] = true
+			case src != nil && ev.Kind == pw.EvFieldWrite && ev.Field != nil && isField[fname(ev.Field)] && ev.Recv == src:
+				if !reported[fname(ev.Field)] {
+					reported[fname(ev.Field)] = true
 					bad = true
-					r.Bad(rule, ctor, "default-after-store:"+ev.Field.Name(), c.Pos(ev.Pos), ev.Field.Name()+" of the local configuration is completed after the configuration was copied into the instance: the instance keeps the uncompleted value", shortTrace(p))
+					r.Bad(rule, ctor, "default-after-store:"+fname(ev.Field), c.Pos(ev.Pos), fname(ev.Field)+" of the local configuration is completed after the configuration was copied into the instance: the instance keeps the uncompleted value", shortTrace(p))
 				}
 			}
 		}
@@ -454,12 +454,12 @@ func (c *Ctx) c10Views() {
 		ok := len(paths) > 0
 		for _, p := range paths {
 			v := p.Ret[0]
-			if !(v.Kind == pw.KCall && v.Ev.Role == "Repo:tsTime" && len(v.Ev.Args) == 1 && v.Ev.Args[0].Kind == pw.KField && v.Ev.Args[0].Field != nil && v.Ev.Args[0].Field.Name() == "E") {
+			if !(v.Kind == pw.KCall && v.Ev.Role == "Repo:tsTime" && len(v.Ev.Args) == 1 && v.Ev.Args[0].Kind == pw.KField && v.Ev.Args[0].Field != nil && fname(v.Ev.Args[0].Field) == "E") {
 				ok = false
 			}
 			if ok && strings.HasPrefix(acc, "errExpired") {
 				src := v.Ev.Args[0].Src
-				if src == nil || src.Kind != pw.KField || src.Field.Name() != "entry" {
+				if src == nil || src.Kind != pw.KField || fname(src.Field) != "entry" {
 					ok = false
 				}
 			}
@@ -488,7 +488,7 @@ func (c *Ctx) c10Views() {
 					a := pointee(ev.Args[0])
 					for _, f := range []string{"K", "V", "E"} {
 						fv := a.Fields[f]
-						if a.Kind != pw.KAlloc || fv == nil || fv.Kind != pw.KField || fv.Field.Name() != f || fv.Src == nil || fv.Src.Kind != pw.KRangeVal {
+						if a.Kind != pw.KAlloc || fv == nil || fv.Kind != pw.KField || fname(fv.Field) != f || fv.Src == nil || fv.Src.Kind != pw.KRangeVal {
 							r.Bad("R10.5", "shardedMapLegacyWalkerOf.Walk", "copy-"+f, c.Pos(ev.Pos), "the legacy walker must hand out "+f+" of the iterated entry unchanged", shortTrace(p))
 							bad = true
 						}
